@@ -1,6 +1,7 @@
 pub mod addsub;
 pub mod bits;
 pub mod bytes;
+pub mod conv;
 pub mod div;
 pub mod modpow;
 pub mod mul;
@@ -13,6 +14,7 @@ pub fn run(name: &str, r: &mut Rec) -> bool {
         "addsub" => addsub::run(r),
         "bits" => bits::run(r),
         "bytes" => bytes::run(r),
+        "conv" => conv::run(r),
         "div" => div::run(r),
         "mul" => mul::run(r),
         "modpow" => modpow::run(r),
